@@ -12,6 +12,7 @@ import (
 	"fmt"
 	"runtime"
 	"strings"
+	"sync"
 	"sync/atomic"
 	"time"
 )
@@ -57,7 +58,9 @@ type Exec struct {
 	timers    []*Timer
 	PanicText string
 	schedule  []string // human readable schedule: thread names at choice points
-	seq       bool     // inside Sequential: scheduling switched off (see Sequential)
+	free      bool
+	freeMu    sync.Mutex
+	seq       bool // inside Sequential: scheduling switched off (see Sequential)
 }
 
 // Sequential runs f in the calling goroutine with scheduling switched off:
@@ -82,7 +85,37 @@ var active atomic.Pointer[Exec]
 func Active() *Exec { return active.Load() }
 
 // Obs appends an observation to the execution log.
-func (x *Exec) Obs(f string, a ...any) { x.Log = append(x.Log, fmt.Sprintf(f, a...)) }
+func (x *Exec) Obs(f string, a ...any) {
+	if x.free {
+		x.freeMu.Lock()
+		defer x.freeMu.Unlock()
+	}
+	x.Log = append(x.Log, fmt.Sprintf(f, a...))
+}
+
+// RunFree executes the scenario WITHOUT the controlled scheduler: every registered thread is a real goroutine,
+// released together, on real sync primitives (the vsync shims fall back to package sync when no controlled
+// execution is active). This is the separate free-running pass meant to be built with -race: the cooperative
+// scheduler's hand-offs are happens-before edges that would blind the race detector. It samples schedules and
+// therefore never decides a property; a race report fails the pass.
+func RunFree(sc *Scenario) *Exec {
+	x := &Exec{free: true, Horizon: 1 << 30, Now: time.Date(2030, 1, 1, 0, 0, 0, 0, time.UTC)}
+	sc.Setup(x)
+	start := make(chan struct{})
+	done := make(chan struct{}, len(x.threads))
+	for _, t := range x.threads {
+		go func(t *Thread) {
+			defer func() { recover(); done <- struct{}{} }()
+			<-start
+			t.body()
+		}(t)
+	}
+	close(start)
+	for range x.threads {
+		<-done
+	}
+	return x
+}
 
 // Thread registers a logical thread (before the execution starts or, via Go, during it).
 func (x *Exec) Thread(name string, body func()) *Thread {
